@@ -175,8 +175,8 @@ Definition tstep (c : cfg) (d : dstate) (t : thread) : option (dstate * thread) 
       if sz >? c_maxblob c then Some (d, goto t (Done (PutErr EBadRequest))) else
       if negb (Z.of_nat (String.length hash) =? hashLen) then Some (d, goto t (Done (PutErr EBadRequest))) else
       if kind_eqb k CAS && (sz =? 0) && String.eqb hash emptySha256 then
-        (* the empty blob is always available; data sent for it is refused *)
-        (if st_len st >? 0 then Some (d, goto t (Done (PutErr EBadRequest))) else Some (d, goto t (Done PutOk))) else
+        (* the empty blob is always available; data sent for it is refused, an unreadable stream is an error *)
+        (if st_len st >? 0 then Some (d, goto t (Done (PutErr EBadRequest))) else if st_err st then Some (d, goto t (Done (PutErr EInternal))) else Some (d, goto t (Done PutOk))) else
       if sz >? 0 then
         let '(l', r) := LRU.reserve sz (lru d) in
         match r with
